@@ -46,6 +46,8 @@ for d in sorted(glob.glob(os.path.join(HERE, "seeded", "C*-*"))):
         continue
     for chk, res in (meta.get("caught_by") or {"(not run)": {"exit": None, "violation_kinds": [], "repo_head": "-"}}).items():
         verdict = {0: "MISSED", 1: "caught", 2: "inconclusive", None: "not run"}.get(res["exit"], str(res["exit"]))
+        if verdict == "MISSED" and meta.get("out_of_domain"):
+            verdict = "not seen - outside the domain as read, " + meta["out_of_domain"][:120]
         allrows.append((os.path.basename(d), meta["property"], f"{chk}: {verdict} (/repo {res['repo_head']})", ", ".join(res["violation_kinds"])[:160]))
 with open(os.path.join(HERE, "seeded", "MATRIX.md"), "w") as f:
     f.write("# Seeded changes vs checks (written by tools/seeds_matrix.py from seeded/*/meta.json)\n\n| seeded change | property | check: verdict | violation kinds reported |\n|---|---|---|---|\n")
